@@ -79,7 +79,7 @@ def replay_transitions(trans, make_session, o: Outcome, chained=False):
 
 
 def judge(work, module, states, events, o: Outcome, part, machine='graph'):
-    cases = [{k: e[k] for k in ('pre', 'post', 'call', 'out', 'eq', 'sharers')} for e in events]
+    cases = [{k: e[k] for k in ('pre', 'post', 'call', 'out', 'eq', 'sharers') + (('nodrift',) if 'nodrift' in e else ())} for e in events]
     verdicts, st, tr, _ = judge_batch(work, module, cases, per_shard_min=2000, shared={'states.json': states},
                                       heap='4g')
     o.states += st
@@ -133,11 +133,47 @@ def run(tier, seed):
             states, events = replay_transitions(trans, lambda: Session(machine), o)
             judge(work / (name + '_j'), 'Trace_Graphs', states, events, o, name, machine)
         o.exhaustive = True
+        states, events = repo_test_traces(work, o)
+        judge(work / 'repo_tests_j', 'Trace_Graphs', states, events, o, 'repo_tests', 'graph')
         for name, module, consts, simargs, machine in sim:
             trans = tlc_dump(work / name, module, consts, o, simulate=simargs)
             states, events = replay_transitions(trans, lambda: Session(machine), o, chained=True)
             judge(work / (name + '_j'), 'Trace_Graphs', states, events, o, name, machine)
     return o
+
+
+REPO_TESTS = ['test/test_fggs.py', 'test/test_derivations.py', 'test/test_conjunction.py', 'test/test_factorize.py',
+              'test/test_formats.py', 'test/test_utils.py', 'test/test_readme.py', 'test/test_viterbi.py']
+
+
+def repo_test_traces(work, o: Outcome):
+    """the repository's own tests as a trace source: every outermost mutator call they make is recorded by
+    harness/tracer.py (pytest plugin, no repository change) and judged with the same clauses"""
+    import subprocess, os
+    out = work / 'trace_events.json'
+    env = dict(os.environ, FGGS_VERIF='1', VERIF_TRACE_OUT=str(out), PYTHONPATH=f'{REPO}:{VERIF}')
+    p = subprocess.run(['/venv/bin/python', '-m', 'pytest', '-q', '-p', 'no:cacheprovider', '-p', 'harness.tracer', *REPO_TESTS],
+                       cwd=str(REPO), env=env, capture_output=True, text=True, timeout=1200)
+    if not out.exists():
+        raise MachineryFailure('tracer produced no events: ' + p.stdout[-300:] + p.stderr[-300:])
+    evs = json.loads(out.read_text())
+    key = lambda st: json.dumps(st, sort_keys=True)
+    states, sidx, events = [], {}, []
+
+    def intern(st):
+        k = key(st)
+        if k not in sidx:
+            states.append(st)
+            sidx[k] = len(states)
+        return sidx[k]
+    for e in evs:
+        if 'err' in e['pre']['g1'] or 'err' in e['post']['g1']:
+            continue
+        events.append({'pre': intern(e['pre']), 'post': intern(e['post']), 'call': {'op': e['op'], 'h': 'g1'}, 'out': e['out'],
+                       'eq': e['eq'], 'sharers': [], 'nodrift': True, 'path': [{'op': e['op'], 'h': 'g1', 'test': e['test']}], 'model_out': '?'})
+    o.extra['repo_test_events'] = len(events)
+    o.extra['repo_tests_traced'] = REPO_TESTS
+    return states, events
 
 
 def replay(path, seed):
